@@ -48,10 +48,11 @@ impl Monitor for C15 {
             ("calls_whose_gc_met_an_injected_unlink_failure", tier.pick(2_000, 40_000)),
             ("calls_whose_writes_were_served_short", tier.pick(20_000, 400_000)),
             ("calls_with_a_whole_block_write_served_short", tier.pick(1_000, 20_000)),
+            ("calls_rolling_over_into_a_file_left_unsized", tier.pick(300, 6_000)),
         ]
     }
     fn rule(&self) -> String {
-        "case = one generated history (align / gc / idle / bigname / mixed profiles); under Always(Flush|FlushAndFsync) evaluation = one create/delete/append/truncate call whose reported wal_bytes_written must equal the summed length of write-family syscalls on WAL files inside the call's trace window (and be 0 exactly when there is none) - one truncate/delete call in five runs with the first unlink of its window failing with EACCES: if the call still returns Ok its count must be right (an Err is not a C15 subject), and one append in six with every write(2) of its window served short (half the bytes, no error); under lazy policies the running sum of reported bytes must equal the running sum of traced bytes at every point where the write buffer is known to be empty (after create_queue, delete_queue, explicit persist, and at shutdown); distinct_nontrivial = distinct (call kind, bytes left in block before the call, padding seen, files touched, GC records) tuples".into()
+        "case = one generated history (align / gc / idle / bigname / mixed profiles); under Always(Flush|FlushAndFsync) evaluation = one create/delete/append/truncate call whose reported wal_bytes_written must equal the summed length of write-family syscalls on WAL files inside the call's trace window (and be 0 exactly when there is none) - one truncate/delete call in five runs with the first unlink of its window failing with EACCES: if the call still returns Ok its count must be right (an Err is not a C15 subject), and one append in six with every write(2) of its window served short (half the bytes, no error); one restart in three finds the next WAL file created but not sized (crash shape), so that a later call rolls over into it; under lazy policies the running sum of reported bytes must equal the running sum of traced bytes at every point where the write buffer is known to be empty (after create_queue, delete_queue, explicit persist, and at shutdown); distinct_nontrivial = distinct (call kind, bytes left in block before the call, padding seen, files touched, GC records) tuples".into()
     }
     fn assumptions(&self) -> Vec<String> {
         vec![
@@ -84,6 +85,7 @@ impl Monitor for C15 {
         let mut traced_sum = 0u64;
         let mut sampled = false;
         let mut fault_hit = false;
+        let mut planted_unsized = false;
         for _ in 0..nops {
             let cursor_before = d.cursor;
             let op = d.gen.next_op(if exact { Some(d.cursor) } else { None });
@@ -103,6 +105,18 @@ impl Monitor for C15 {
                             json!({"history": d.history_json(300), "sum_reported": reported_sum, "sum_traced": traced_sum, "policy": policy.name()}),
                         );
                         return;
+                    }
+                }
+                // one restart in three finds the next WAL file created but not sized, as a crash
+                // between its creation and its sizing leaves it: the call that later rolls over
+                // into it must still report exactly the bytes it writes
+                if exact && !fault_hit && rng.chance(1, 3) {
+                    let newest = std::fs::read_dir(&dir).ok().and_then(|rd| rd.flatten().filter_map(|e| e.file_name().to_str().filter(|n| is_wal_name(n)).and_then(|n| n[4..].parse::<u64>().ok())).max());
+                    if let Some(n) = newest {
+                        if std::fs::write(dir.join(format!("wal-{:020}", n + 1)), b"").is_ok() {
+                            acc.count("restarts_with_the_next_file_created_but_not_sized");
+                            planted_unsized = true;
+                        }
                     }
                 }
                 let st = d.apply(Op::Restart);
@@ -178,6 +192,10 @@ impl Monitor for C15 {
                 };
                 if gc_records {
                     acc.count("calls_with_gc_position_records");
+                }
+                if files.len() >= 2 && planted_unsized {
+                    acc.count("calls_rolling_over_into_a_file_left_unsized");
+                    planted_unsized = false;
                 }
                 if files.len() >= 2 {
                     acc.count("calls_spanning_a_rollover");
